@@ -9,6 +9,7 @@ CONSTANTS
   EsrchFatal = FALSE
   ChildSigsysIgnored = FALSE
   AnyDecision = FALSE
+  ClenPanics = FALSE
   Noise = TRUE
 SPECIFICATION TSpec
 CONSTRAINT Mark
